@@ -340,7 +340,7 @@ def classify(failure):
             ("colon-in-field", lambda p: ":" in p[3][1] or ":" in p[4] or ":" in p[2])]
     # every one of these families MOVES text between the fields of an item (the characters of the written line are the same, they
     # are split differently); a drift that adds or loses other characters is not one of them
-    if not all(conserved(e[1], e[2]) for e in items):
+    if not all(conserved(e) for e in items):
         return None
     for kid, test in fams:
         if all(test(e[1]) or test(e[2]) for e in items):
@@ -352,17 +352,23 @@ def classify(failure):
     return None
 
 
-def item_chars(p):
+def item_chars(p, with_unit):
     import collections
     v = p[3]
-    vt = repr(float.fromhex(v[1])) if v[0] == "n" and v[1] not in ("nan", "inf", "-inf") else str(v[1])
-    return collections.Counter(ch for ch in (p[0] + p[2] + vt + p[4]) if not ch.isspace() and ch not in "0.:+-eE")
+    vt = "" if v[0] == "n" else str(v[1])
+    text = p[0] + vt + p[4] + (p[2] if with_unit else "")
+    return collections.Counter(ch for ch in text if not ch.isspace() and not ch.isdigit() and ch not in ".:+-eE")
 
 
-def conserved(p, q):
-    """the two dumps of one item hold the same characters (blanks, the delimiters '.' ':' and the characters a number may gain or
-    lose when it is re-printed or an empty value becomes 0 are not counted)"""
-    return item_chars(p) == item_chars(q)
+def conserved(e):
+    """the two dumps of one item hold the same characters: the known families MOVE text between the fields of an item, they do not
+    add or lose any.  Not counted: blanks, the delimiters '.' ':', digits and the other characters of numbers (a number that moves
+    may be re-printed, an empty value next to a unit becomes 0).  A difference in the unit alone is not judged here (units are also
+    copied between STRT/STOP/STEP and the index curve by write())."""
+    fields = set(e[0].split(":")[3].split("+"))
+    if fields <= {"unit"}:
+        return True
+    return item_chars(e[1], "unit" in fields) == item_chars(e[2], "unit" in fields)
 
 
 def context(L, cfg, first_refresh=None):
